@@ -56,8 +56,16 @@ Definition result_ok (S : schema) (t : sym) (r : result) (o : oresult) : bool :=
   match r, o with
   | RUuid u, OUuid u' => N.eqb u u'
   | RRows rs, ORows rs' =>
-      bool_decide ((list_to_map rs : gmap sym (gmap sym value))
-                   = list_to_map ((fun ur => (fst ur, fill_row (find_T S t) (mkrow (snd ur)))) <$> rs'))
+      (* row by row: the observed row names no column the result should not have, and - columns it leaves out being
+         at their default - agrees with the expected row on the expected columns *)
+      let m : gmap sym (gmap sym value) := list_to_map rs in
+      forallb (fun ur => match m !! fst ur with
+                         | Some r =>
+                             let o := mkrow (snd ur) in
+                             bool_decide (dom o ⊆ dom r) &&
+                             bool_decide (filter (fun kv => fst kv ∈ dom r) (fill_row (find_T S t) o) = r)
+                         | None => false
+                         end) rs'
       && Nat.eqb (length rs) (length rs')
   | RCount n, OCount n' => Nat.eqb n n'
   | REmpty, OEmpty => true
